@@ -18,8 +18,8 @@ impl Check for C03 {
     }
 
     fn rule(&self) -> String {
-        "seeded loop- and growth-biased Push programs (block duplication, exec dup/swap/push, nesting <= 8, i64/f64 extremes, \
-         capacities 0..=12 / 64, all inputs bound) run harness-stepped (<= 400 steps) and by the real loop for a sweep of \
+        "seeded loop- and growth-biased Push programs (block duplication, exec dup/swap/push, nesting <= 8 generated structurally plus the whole program wrapped 65..=1200 blocks deep in 1/200 of the runs, i64/f64 extremes, \
+         capacities 0..=12 / 64, all inputs bound) run harness-stepped (<= 400 steps + nesting depth) and by the real loop for a sweep of \
          step limits (0..=k for a seeded k <= 60, T-1, T, T+1, 10^4, usize::MAX); monitored: returns (catch_unwind + watchdog), \
          Err only for overflow and only where the model says a stack would overflow, every stack size <= its maximum at every \
          step boundary, state(L) == stepped state after min(L,T) steps; non-trivial iff >= 5 steps ran and (a fatal overflow \
